@@ -182,7 +182,7 @@ func faultFidelityPass(tier string, seed uint64, cov map[string]any) (int, []str
 		kinds := wf.MutKinds()
 		// 2. kill / fail plans at the same operation index
 		var plans []simos.Plan
-		for _, p := range planList(kinds, 0, nil, 0, j.in, 0, c.PartialSeed) {
+		for _, p := range planList(kinds, 0, nil, 0, j.in, 0, c.PartialSeed, false) {
 			if (p.KillAt > 0 || p.FailAt > 0) && p.FailAt2 == 0 && p.SigAt == 0 {
 				plans = append(plans, p)
 			}
